@@ -1,6 +1,7 @@
 //! Known_C01 - the Rust twin of Model/KnownC01.v `known_c01` (used by c01.rs and, without a base, by the
 //! href setter of c07.rs).  The classes are the EXACT exclusions of the proved class theorems of C01:
-//!   1 the file scheme is involved (effective scheme `file`);
+//!   1 the file scheme is involved (effective scheme `file`), except scheme-less references that are
+//!     empty or start with '?' / '#';
 //!   2 a ".." (any spelling) would pop a drive-letter-shaped segment in the path the Standard's path
 //!     state builds (F-C01-9: parser.rs never pops such a segment, in any scheme);
 //!   3 non-special authority: a port number <= 65535 directly followed by '\' (F-C01-8);
@@ -202,9 +203,6 @@ pub fn known_c01(base: Option<&KBase>, input: &str) -> u32 {
     let sch = leading_scheme(&t);
     let bscheme = base.map(|b| b.scheme.to_string());
     let eff = sch.clone().or_else(|| bscheme.clone()).unwrap_or_default();
-    if eff == "file" || (bscheme.as_deref() == Some("file") && sch.is_none()) {
-        return 1;
-    }
     let rest: &[char] = match &sch {
         Some(_) => {
             let p = t.iter().position(|&c| c == ':').map(|p| p + 1).unwrap_or(0);
@@ -212,6 +210,11 @@ pub fn known_c01(base: Option<&KBase>, input: &str) -> u32 {
         }
         None => &t[..],
     };
+    // a scheme-less reference that is empty or starts with '?' / '#': resolved without the file states
+    let bare = base.is_some() && sch.is_none() && (rest.is_empty() || rest[0] == '?' || rest[0] == '#');
+    if (eff == "file" || (bscheme.as_deref() == Some("file") && sch.is_none())) && !bare {
+        return 1;
+    }
     let sp = is_special_scheme(&eff);
     let two_sl = rest.len() >= 2 && is_sl(rest[0]) && is_sl(rest[1]);
     // does the reference resolve against the base?
